@@ -64,11 +64,78 @@ var specArities = map[string][]int{
 	"trace": {1, 2}, "now": {0}, "timeOfDay": {0}, "today": {0}, "not": {0}, "extension": {1}, "join": {0, 1},
 }
 
+// optionalArgWitnesses: for every function with an optional argument, a call in which that argument decides
+// the result (so an implementation that drops it is told apart from one that uses it).
+var optionalArgWitnesses = []struct{ with, without, wantWith, wantWithout string }{
+	{"Patient.name.exists(false)", "Patient.name.exists()", "ok:[B:false]", "ok:[B:true]"},
+	{"iif(false, 1, 2)", "iif(false, 1)", "ok:[I:2]", "ok:[]"},
+	{"'2 days'.toQuantity('lightyears')", "'2 days'.toQuantity()", "", "ok:[Q:x322064617973]"},
+	{"'2 days'.convertsToQuantity('lightyears')", "'2 days'.convertsToQuantity()", "ok:[B:false]", "ok:[B:true]"},
+	{"5.convertsToQuantity(1)", "5.convertsToQuantity()", "ok:[B:false]", "ok:[B:true]"},
+	{"'abc'.substring(1, 1)", "'abc'.substring(1)", "ok:[S:x62]", "ok:[S:x6263]"},
+	{"1.2345.round(2)", "1.2345.round()", "ok:[D:123e-2]", "ok:[D:1e0]"},
+	{"Patient.name.given.take(2).join(',')", "Patient.name.given.take(2).join()", "ok:[S:x782c79]", "ok:[S:x7879]"},
+}
+
+func runC16Witnesses(c *Ctx, input []fhir.Resource) {
+	for _, w := range optionalArgWitnesses {
+		for _, q := range []struct{ src, want string }{{w.with, w.wantWith}, {w.without, w.wantWithout}} {
+			e, err := fhirpath.Compile(q.src, compopts.WithExperimentalFuncs())
+			if err != nil {
+				c.Law(false, "C16/spec-arity-rejected", "every function is reachable with each argument count its specification allows", q.src, err.Error())
+				continue
+			}
+			o := safeEval(func() (system.Collection, error) { return e.Evaluate(input) })
+			got := canonOutcome(o, nil)
+			c.Observe("optional-argument witness "+q.src, true)
+			if q.want == "" {
+				c.Count("witness-observed:" + got)
+				continue
+			}
+			c.Law(got == q.want, "C16/argument-ignored", "an accepted argument is handed to the function's own implementation and evaluated", q.src, got+" want "+q.want)
+		}
+	}
+}
+
+// runC16Custom: a function added with an option takes exactly as many arguments as its Go signature has
+// parameters after the input collection.
+func runC16Custom(c *Ctx, input []fhir.Resource) {
+	fns := map[string]any{
+		"zero": func(in system.Collection) (system.Collection, error) { return in, nil },
+		"one":  func(in system.Collection, a system.Collection) (system.Collection, error) { return a, nil },
+		"two":  func(in system.Collection, a, b system.Collection) (system.Collection, error) { return b, nil },
+		"three": func(in system.Collection, a, b, d system.Collection) (system.Collection, error) { return d, nil },
+	}
+	arity := map[string]int{"zero": 0, "one": 1, "two": 2, "three": 3}
+	for _, name := range []string{"zero", "one", "two", "three"} {
+		for n := 0; n <= 5; n++ {
+			args := make([]string, n)
+			for i := range args {
+				args[i] = fmt.Sprint(i + 1)
+			}
+			src := "'x'." + name + "(" + strings.Join(args, ", ") + ")"
+			e, err := fhirpath.Compile(src, fhirpath.WithFunction(name, fns[name]))
+			c.Observe("custom "+src, true)
+			if n == arity[name] {
+				c.Law(err == nil, "C16/spec-arity-rejected", "every function is reachable with each argument count its specification allows", src+" (custom function of "+fmt.Sprint(arity[name])+" arguments)", fmt.Sprint(err))
+			} else {
+				c.Law(err != nil, "C16/extra-arity-accepted", "Compile accepts no argument count the function does not take", src+" (custom function of "+fmt.Sprint(arity[name])+" arguments)", "accepted")
+			}
+			if err == nil {
+				o := safeEval(func() (system.Collection, error) { return e.Evaluate(input) })
+				c.Law(!o.Panicked && !(o.Err != nil && (errors.Is(o.Err, impl.ErrWrongArity) || strings.Contains(o.Err.Error(), "arity"))), "C16/arity-complaint-after-accept", "an accepted call never fails with an arity complaint", src, fmt.Sprint(o.Err, o.PanicMsg))
+			}
+		}
+	}
+}
+
 func runC16(c *Ctx) {
 	c.meta.Rule = "exhaustive: (N1 names ∪ base table ∪ experimental table ∪ 3 unknown names) x argument counts 0..4 x {default, WithExperimentalFuncs}; receiver and arguments well-typed per specification signature (extra arguments are the literal 1); non-trivial = the name exists in the table used; distinct by (options, name, count)"
 	c.meta.Exhaustive = true
 	input := []fhir.Resource{mustResource(`{"resourceType":"Patient","id":"p1","active":true,"name":[{"family":"A","given":["x","y","x"]},{"family":"B"}],
 	  "extension":[{"url":"http://example.org/e","valueString":"v"}]}`)}
+	runC16Witnesses(c, input)
+	runC16Custom(c, input)
 	names := map[string]bool{"nosuch": true, "Where": true, "toquantity": true}
 	base := funcs.Clone()
 	for k := range base {
@@ -178,7 +245,27 @@ func runC16(c *Ctx) {
 				if o.Panicked {
 					c.Count("eval-panic")
 				}
+				// every accepted argument reaches the function: with an argument that cannot be evaluated (an
+				// undefined variable) the call fails -- for the functions that evaluate their arguments eagerly
+				if o.Err == nil && !o.Panicked && n >= 1 && !lazyArgs[name] {
+					for i := 0; i < n; i++ {
+						a2 := append([]string{}, args...)
+						a2[i] = "%undefinedVariable"
+						usrc := shape.recv + "." + name + "(" + strings.Join(a2, ", ") + ")"
+						ue, uerr := fhirpath.Compile(usrc, copts...)
+						if uerr != nil {
+							continue
+						}
+						uo := safeEval(func() (system.Collection, error) { return ue.Evaluate(input) })
+						c.Law(uo.Err != nil || uo.Panicked, "C16/argument-ignored", "an accepted argument is handed to the function's own implementation and evaluated", usrc+" (experimental functions "+tag+")", canonOutcome(uo, nil))
+						c.Count("argument-used")
+					}
+				}
 			}
 		}
 	}
 }
+
+// functions whose arguments are criteria / projections / branches evaluated per item or on demand
+// (iif evaluates only the branch it takes; convertsToQuantity reports a failing conversion as false)
+var lazyArgs = map[string]bool{"iif": true, "convertsToQuantity": true}
